@@ -13,7 +13,7 @@ use zkryptium::schemes::algorithms::{Scheme, CL03};
 fn h(s: String) -> Integer { Integer::from_digits(Sha256::digest(s.as_bytes()).as_slice(), Order::MsfBe) }
 
 /// Fiat-Shamir challenges a recipient can recompute from the proof and public data alone.
-fn challenges<CS: Suite>(w: &World<CS>, it: &Item) -> Vec<(String, Integer)> where CL03<CS>: Scheme<PubKey = CL03PublicKey, PrivKey = CL03SecretKey> {
+pub fn challenges<CS: Suite>(w: &World<CS>, it: &Item) -> Vec<(String, Integer)> where CL03<CS>: Scheme<PubKey = CL03PublicKey, PrivKey = CL03SecretKey> {
     let mut out: Vec<(String, Integer)> = Vec::new();
     let leaves = int_leaf_paths(&it.proof);
     for p in &leaves {
@@ -71,7 +71,7 @@ where CL03<CS>: Scheme<PubKey = CL03PublicKey, PrivKey = CL03SecretKey>, CS::Has
     let maxn = if env.thorough() { 4 } else { 3 };
     let w: World<CS> = World::generate(maxn);
     let items = collect::<CS>(env, &w, maxn, "c19");
-    env.ctx.set_rule("every honest issuance proof (all non-empty hidden subsets) and signature proof (all subsets), n <= 3 (thorough 4). S = all integer leaves of the serialized proof; Cset = every Fiat-Shamir challenge a recipient can recompute (explicit challenge / C fields, C mod 2^t, and the hashes the verifier recomputes from public data); X = every secret the prover holds that the harness knows (hidden m_i, e, s, v, commitment randomness r, and any randomness leaf that is present in the proof). For EVERY (s, c, x) in S x Cset x X and EVERY ordered pair (s, s') in S^2: |floor(s/c) - x| >= 2^64 and |floor(s/s') - x| >= 2^64. Additionally every embedded Boudot range proof is attacked through its proofs of square: floor(d / challenge)^2 plus the public offset, shifted by 2^T, must not land within 2^64 of the secret the range proof is about (hidden m_i, e, r). State = (proof, leaf); non-trivial = a quotient was computed against a prover secret.");
+    env.ctx.set_rule("every honest issuance proof (all non-empty hidden subsets) and signature proof (all subsets), n <= 3 (thorough 4). S = all integer leaves of the serialized proof; Cset = every Fiat-Shamir challenge a recipient can recompute (explicit challenge / C fields, C mod 2^t, and the hashes the verifier recomputes from public data); X = every secret the prover holds that the harness knows (hidden m_i, e, s, v, commitment randomness r, and any randomness leaf that is present in the proof). For EVERY (s, c, x) in S x Cset x X and EVERY ordered pair (s, s') in S^2: |floor(s/c) - x| >= 2^64 and |floor(s/s') - x| >= 2^64; and for every pair of leaves and every pair of secrets |floor((s - s')/c) - (x - x')| >= 2^64 (shared blinding). Additionally every embedded Boudot range proof is attacked through its proofs of square: floor(d / challenge)^2 plus the public offset, shifted by 2^T, must not land within 2^64 of the secret the range proof is about (hidden m_i, e, r). State = (proof, leaf); non-trivial = a quotient was computed against a prover secret.");
     let bound = pow2(64);
     par_for(&items, |_, it| {
         if !env.want(&it.id) || env.ctx.out_of_time() { return; }
@@ -84,13 +84,18 @@ where CL03<CS>: Scheme<PubKey = CL03PublicKey, PrivKey = CL03SecretKey>, CS::Has
         let close = |q: &Integer, x: &Integer| (q - x).complete().abs() < bound;
         for (p, s) in &vals {
             env.ctx.state(&[it.id.as_bytes(), p.join("/").as_bytes()]);
-            if *s <= 0 { env.ctx.trace(); continue; }
+            let is_resp = { let l = p.last().unwrap(); let l = if l.chars().all(|c| c.is_ascii_digit()) && p.len() >= 2 { &p[p.len() - 2] } else { l }; matches!(l.as_str(), "d" | "d_1" | "d_2" | "s1" | "s2" | "D_1" | "D_2") || (l.starts_with("s_") && l.len() == 3) };
+            // a zero response is itself a quotient (0) — kept for response leaves; other leaves <= 0 carry nothing to divide
+            if *s < 0 || (*s == 0 && !is_resp) { env.ctx.trace(); continue; }
             for (cn, c) in &cs {
                 if *c <= 0 { continue; }
                 env.ctx.step();
                 let q = Integer::from(s / c);
                 for (xn, x) in &secrets {
                     if p.last().map(|l| l == "randomness").unwrap_or(false) && xn.starts_with("randomness leaf") { continue; } // a leaf trivially equals itself
+                    // a secret below 2^64 (attribute 0 or 1) is within 2^64 of every small quotient: for those only
+                    // response leaves count — a response must be dominated by its blinding whatever the secret is
+                    if *x < bound && !is_resp { continue; }
                     if close(&q, x) { env.ctx.violation(&format!("C19:quotient-by-challenge:/{}:{}", path_class(p), xn.split(" m_").next().unwrap_or(xn)), &format!("floor(/{} / {}) is within 2^64 of the prover's secret '{}' (difference {})", p.join("/"), cn, xn, (&q - x).complete()), env.case(&it.id, json!({"base": det0, "response": p.join("/"), "divisor": cn, "secret": xn}))); }
                 }
             }
@@ -99,11 +104,24 @@ where CL03<CS>: Scheme<PubKey = CL03PublicKey, PrivKey = CL03SecretKey>, CS::Has
                 env.ctx.step();
                 let q = Integer::from(s / s2);
                 for (xn, x) in &secrets {
-                    if xn.starts_with("randomness leaf") { continue; }
+                    if xn.starts_with("randomness leaf") || *x < bound { continue; }
                     if close(&q, x) { env.ctx.violation(&format!("C19:quotient-by-response:/{} over /{}:{}", path_class(p), path_class(p2), xn.split(" m_").next().unwrap_or(xn)), &format!("floor(/{} / /{}) is within 2^64 of the prover's secret '{}' (difference {})", p.join("/"), p2.join("/"), xn, (&q - x).complete()), env.case(&it.id, json!({"base": det0, "response": p.join("/"), "divisor": p2.join("/"), "secret": xn}))); }
                 }
             }
-            env.ctx.class(if p.last().map(|l| l.starts_with('s') || l.starts_with('d') || l.starts_with('D')).unwrap_or(false) { "response leaf" } else { "other leaf" });
+            // differences of two responses: a shared (or related) blinding shows as floor((s - s') / c) ~ x - x'
+            for (p2, s2) in &vals {
+                if p >= p2 || !(p.len() == p2.len() && (p[..p.len() - 1] == p2[..p2.len() - 1] || path_class(p) == path_class(p2))) { continue; }
+                let d = (s - s2).complete();
+                for (_cn, c) in &cs { if *c <= 0 { continue; } env.ctx.step(); let q = Integer::from(&d / c);
+                    for (i, (xn, x)) in secrets.iter().enumerate() { for (xn2, x2) in secrets.iter().skip(i + 1) {
+                        if xn.starts_with("randomness leaf") || xn2.starts_with("randomness leaf") { continue; }
+                        let dx = (x - x2).complete();
+                        if dx.clone().abs() < bound { continue; }
+                        if close(&q, &dx) || close(&q, &(-dx.clone())) { env.ctx.violation(&format!("C19:difference-quotient:/{} minus /{}", path_class(p), path_class(p2)), &format!("floor((/{} - /{}) / challenge) is within 2^64 of the difference of the secrets '{}' and '{}'", p.join("/"), p2.join("/"), xn, xn2), env.case(&it.id, json!({"base": det0, "responses": [p.join("/"), p2.join("/")], "secrets": [xn, xn2]}))); }
+                    } }
+                }
+            }
+            env.ctx.class(if is_resp { "response leaf" } else { "other leaf" });
             env.ctx.trace();
         }
         // derived secrets: every embedded range proof, attacked through its proofs of square
